@@ -91,6 +91,8 @@ def items(tier):
         yield ("v", label, lit, ctxs)
     for label, lit in literals.valid_chars():
         yield ("v", label, lit, ctxs)
+    for label, lit in literals.valid_long():
+        yield ("v", label, lit, ctxs)
     for label, lit in literals.valid_strings(b["string_full"], b["string_small"]):
         yield ("v", label, lit, ctxs)
     for fam, diag, lit, tail in literals.malformed(b["malformed_digits"]):
